@@ -715,3 +715,54 @@ Proof.
     + destruct (finish st _ t (seq st + 1)). reflexivity.
   - destruct (finish st _ t 0). reflexivity.
 Qed.
+
+(* ------------------------------------------------------------------------------------ *)
+(* the functional specification of one call, for every state and every clock              *)
+
+Definition exhausted (st : sf) (t : Z) : Prop := t = lastTU st /\ maxSeq < seq st + 1.
+
+Definition next_spec_of (st : sf) (t : Z) (rest : list Z) (r : outcome * sf * list Z) : Prop :=
+  let '(o, st', rest') := r in
+  match o with
+  | Ok id =>
+      id = compose (bc st') (lastTU st') (machine st) (seq st') /\
+      lastID st < id /\ lastID st' = id /\ machine st' = machine st /\ t <= maxTU /\
+      bc st' = (if t <? lastTU st then bc st + 1 else bc st) /\
+      ((t <> lastTU st /\ lastTU st' = t /\ seq st' = 0 /\ rest' = rest) \/
+       (t = lastTU st /\ seq st + 1 <= maxSeq /\ lastTU st' = t /\ seq st' = seq st + 1 /\ rest' = rest) \/
+       (exhausted st t /\ wait t rest = Some (lastTU st', rest') /\ lastTU st' <= maxTU /\ seq st' = 0))
+  | ErrTimeUnitOverflow =>
+      (maxTU < t /\ st' = st /\ rest' = rest) \/
+      (t <= maxTU /\ exhausted st t /\ exists now, wait t rest = Some (now, rest') /\ maxTU < now /\
+       st' = mkSf (machine st) 0 (lastTU st) (lastID st) (bc st))
+  | ErrClockGoneBackwards => t <= maxTU /\ t < lastTU st /\ 3 <= bc st /\ st' = st /\ rest' = rest
+  | ErrUUIDIntOverflow =>
+      t <= maxTU /\ lastID st' = lastID st /\ machine st' = machine st /\
+      compose (bc st') (lastTU st') (machine st) (seq st') <= lastID st
+  | Blocked => t <= maxTU /\ exhausted st t /\ wait t rest = None
+  end.
+
+Lemma next_spec st t rest : next_spec_of st t rest (next (t :: rest) st).
+Proof.
+  unfold exhausted.
+  apply next_elim; unfold next_spec_of, exhausted.
+  - intros H. left. repeat split; assumption.
+  - intros H1 H2 H3. repeat split; assumption.
+  - intros H1 H2 H3. apply finish_elim; intros Hc; cbn [with_rest machine seq bc lastID lastTU].
+    + repeat split; try assumption; reflexivity.
+    + replace (t <? lastTU st) with false by lia.
+      repeat split; try assumption; try reflexivity.
+      right. left. repeat split; try assumption; reflexivity.
+  - intros H1 H2 H3. apply finish_elim; intros Hc; cbn [with_rest machine seq bc lastID lastTU].
+    + repeat split; try assumption; reflexivity.
+    + unfold next_b in *. repeat split; try assumption; try reflexivity.
+      left. repeat split; try assumption; reflexivity.
+  - intros H1 H2 H3 H4. repeat split; assumption.
+  - intros now rest' H1 H2 H3 H4 H5. right. repeat split; try assumption.
+    exists now. repeat split; assumption.
+  - intros now rest' H1 H2 H3 H4 H5. apply finish_elim; intros Hc; cbn [with_rest machine seq bc lastID lastTU].
+    + repeat split; try assumption; reflexivity.
+    + replace (t <? lastTU st) with false by lia.
+      repeat split; try assumption; try reflexivity.
+      right. right. repeat split; try assumption; reflexivity.
+Qed.
